@@ -17,6 +17,8 @@ CONSTANTS
   DevFetchOutUnchecked = FALSE
   DevFetchLateAuth = FALSE
   DevRateKeyHeader = FALSE
+  DevRefundOnRefusal = FALSE
+  RateBad = FALSE
   DevRawNewlines = TRUE
 INVARIANTS C29_ListComplete
 VIEW View
